@@ -1432,6 +1432,7 @@ fn main() {
     let n_valid = if is_thorough() { 200 } else { 24 };
     let mut id = 0u64;
 
+    let mut n_sent = 0u64;
     for ep in &eps {
         let op = &doc_value["paths"][ep.path][ep.method];
         assert!(op.is_object(), "operation {} {} not in document", ep.method, ep.path);
@@ -1614,8 +1615,25 @@ fn main() {
                 headers.push(("content-type", ct));
             }
             let body = q.body.clone().unwrap_or_default();
-            let raw = build_request(&ep.method.to_uppercase(), &target, &headers, &body);
-            let resp = {
+            // how the body is framed is not the document's business: every third request with a
+            // body goes out chunked (no Content-Length), every third of those over HTTP/2 as a
+            // stream of DATA frames without a length
+            n_sent += 1;
+            let unannounced = q.body.is_some() && !body.is_empty() && n_sent % 3 == 0;
+            let raw = if unannounced {
+                let hs: Vec<(&str, &str)> = headers.iter().filter(|(n, _)| *n != "host").cloned().collect();
+                build_chunked_request(&ep.method.to_uppercase(), &target, &hs, &body, &[7, 1, 64, 4096])
+            } else {
+                build_request(&ep.method.to_uppercase(), &target, &headers, &body)
+            };
+            let over_h2 = unannounced
+                && n_sent % 9 == 0
+                && format!("http://localhost{}", target).parse::<http::Uri>().is_ok()
+                && headers.iter().all(|(_, v)| http::HeaderValue::from_str(v).map(|h| !v.starts_with(' ') && !v.ends_with(' ') && h.len() == v.len()).unwrap_or(false));
+            let resp = if over_h2 {
+                let hs: Vec<(&str, &str)> = headers.iter().filter(|(n, _)| *n != "host").cloned().collect();
+                h2_roundtrip(addr, &ep.method.to_uppercase(), &target, &hs, &body, false).expect("response over HTTP/2")
+            } else {
                 let mut got = None;
                 for _ in 0..3 {
                     got = roundtrip(addr, &raw, false);
